@@ -9,7 +9,7 @@ import dbmodel as M
 import iotie
 import pyspec
 
-KINDS = ["insert", "insert_multiple", "remove_some", "update_some", "drop", "remove_all", "remove_all_match", "handle_update", "update_nochange", "update_shrink"]
+KINDS = ["insert", "insert_multiple", "remove_some", "update_some", "drop", "remove_all", "remove_all_match", "handle_update", "update_nochange", "update_shrink", "remove_most"]
 
 
 def battery(g):
@@ -17,7 +17,10 @@ def battery(g):
     p = g.point(dbgen.T0 + 500 * dbgen.SEC)
     p["tags"]["after"] = "fault"
     return [("count", ("noop", "tags"), None), ("all", False), ("search", one, None, False), ("len",), ("get_tag_keys", None),
-            ("insert", [p], None), ("all", False), ("count", ("noop", "tags"), None), ("get_timestamps", None)]
+            ("insert", [p], None), ("all", False), ("count", ("noop", "tags"), None), ("get_timestamps", None),
+            # a rewriting operation on the same live object, then reads: whatever the failed call left in its scratch state must not leak in
+            ("update_all", {"tags": ("static", {"rewritten": "yes"})}), ("all", False), ("len",),
+            ("remove", ("S", "tags", [("k", "after")], ("cmp", "==", ("s", "fault"))), None), ("all", False), ("count", ("noop", "tags"), None)]
 
 
 def spec_out(disk, o):
@@ -77,16 +80,43 @@ def main(tier, seed):
                 if why is None and not allowed(r["disk_after_fault"]):
                     why = "right after the failed call the file decodes to neither the old nor the new contents"
                 # the live object: every follow-up either raises or answers consistently with its own storage
-                extra = []
+                extra, rewritten, prev = [], False, r["disk_after_fault"]
                 for o, res, disk in r["follow"]:
                     if why:
                         break
                     if res[0] == "raise":
                         outcomes["live_raises"] += 1
+                        prev = disk
                         continue
                     if disk is None:
                         why = f"after {o[0]} on the live object the file no longer decodes"
                         break
+                    # generic: the answer and the new file contents are the documented meaning of the operation on what the file held before it
+                    # (a read is judged on what the file holds AFTER it: a row still buffered when the call failed reaches the file with the
+                    # first seek; a write is judged on what the file held after the previous follow-up, all of which seek)
+                    is_write = o[0] in ("insert", "update_all", "update", "remove")
+                    base = prev if is_write else disk
+                    if base is not None and not isinstance(base, tuple):
+                        try:
+                            db2, want = pyspec.step([dict(x) for x in base], o)
+                        except Exception:
+                            db2 = want = None
+                        if want is not None and not pyspec.same(want, res):
+                            why = (f"after the failed operation {o[0]} answers {str(res)[:200]} while the object's own storage holds {len(base)} points "
+                                   f"({str(want)[:200]} expected): a silently wrong answer")
+                            what["follow_up"] = o
+                            break
+                        if db2 is not None and not iotie.same_points(disk, db2):
+                            why = f"after the failed operation, {o[0]} on the live object left {len(disk)} points in the file where the documented meaning gives {len(db2)}"
+                            what["follow_up"] = o
+                            break
+                    prev = disk
+                    if o[0] in ("update_all", "update", "remove"):
+                        rewritten = True
+                        continue
+                    if rewritten:
+                        outcomes["live_read_ok"] += 1
+                        continue
                     if o[0] == "insert":
                         extra = extra + list(o[1])
                         if not (res == ("nat", 1) and allowed(disk, extra)):
@@ -95,12 +125,19 @@ def main(tier, seed):
                     if not allowed(disk, extra):
                         why = f"after {o[0]} on the live object the file decodes to neither the old nor the new contents"
                         break
-                    want = spec_out(disk, o)
-                    if want is not None and not pyspec.same(want, res):
-                        why = f"after the failed operation {o[0]} answers {str(res)[:200]} while the object's own storage holds {len(disk)} points ({str(want)[:200]} expected): a silently wrong answer"
-                        what["follow_up"] = o
-                    else:
-                        outcomes["live_read_ok"] += 1
+                    outcomes["live_read_ok"] += 1
+                if rewritten:
+                    if why is None and r["after_close"] is not None and isinstance(r["reopened"], list) and not iotie.same_points(r["reopened"], r["after_close"]):
+                        why = "reopening the database after the fault does not give what the file holds"
+                    if why is None and isinstance(r["reopened"], tuple):
+                        why = f"the database cannot be reopened after the fault ({r['reopened'][1]})"
+                    if why and len(direct_bad) < 4:
+                        direct_bad.append({"kind": "failing-input", "why": why, **what, "history": hist, "op": op, "auto_index": auto,
+                                           "outcome": r["out"], "contents_before": rec["before"], "contents_after_without_fault": rec["after"],
+                                           "file_right_after_fault": r["disk_after_fault"], "file_after_close": r["after_close"],
+                                           "calls_of_op": [f"{t}.{c}" for _, t, c, _ in rec["events"]]})
+                    coq_cases.append((auto, hist, op, [x if x is not None else c12.BAD for x in obs]))
+                    continue
                 if why is None and not allowed(r["after_close"], extra):
                     why = "after close the file decodes to neither the old nor the new contents"
                 if why is None and r["after_close"] is not None and isinstance(r["reopened"], list) and not iotie.same_points(r["reopened"], r["after_close"]):
